@@ -211,9 +211,8 @@ def add_turboshake(reg):
     cls = H + 'TurboSHAKE128.TurboSHAKE'
     s = ST()
     reg.add(ClassContract(cls, fields={'_state': 'obj:' + SP, '_is_squeezing': 'bool', '_capacity': 'int', '_domain': 'int'},
-                          valid=['%s.g_sq ==> self._is_squeezing' % s, '%s.g_p1 == self._capacity and %s.g_p2 == 12' % (s, s),
-                                 'not %s.g_sq ==> %s.g_out == 0' % (s, s),
-                                 '0 <= self._domain and self._domain <= 255']))
+                          valid=['all((any((not %s.g_sq, self._is_squeezing)), %s.g_p1 == self._capacity, %s.g_p2 == 12, '
+                                 'any((%s.g_sq, %s.g_out == 0)), 0 <= self._domain, self._domain <= 255))' % (s, s, s, s, s)]))
 
     def post(o, cap, dom):
         so = ST(o)
@@ -243,12 +242,101 @@ def add_turboshake(reg):
                          ensures=p, modifies=[], result='obj:' + cls, options=opts()))
 
 
+# ------------------------------------------------------------------------------------------------ KangarooTwelve (RFC 9861)
+K12M = H + 'KangarooTwelve.'
+K12 = K12M + 'K12_XOF'
+H1 = 'self._hash1._state._raw_pointer'
+H2 = 'self._hash2._state._raw_pointer'
+K12_FIELDS = ['self._custom', 'self._state', 'self._padding', 'self._hash1', 'self._length1', 'self._hash2', 'self._length2', 'self._ctr']
+K12_UPDATE_MOD = ['self._state', 'self._length1', 'self._length2', 'self._hash2', 'self._ctr', H1 + '.g_data',
+                  H2 + '.g_data', H2 + '.g_sq', H2 + '.g_pad', H2 + '.g_out', 'self._hash2._is_squeezing']
+# loop of K12_XOF.update over the 8192-byte chunks (ordinal 0): structural invariant
+K12_LOOP = {0: {'invariant': ['all((0 <= index, index <= len_data, len_data == len(data)))', 'self._state == 3', 'valid(self)'],
+                'havoc': [H1 + '.g_data', H2 + '.g_data', H2 + '.g_sq', H2 + '.g_pad', H2 + '.g_out', 'self._hash2._is_squeezing'],
+                'types': {'new_index': 'int', 'cv_i': 'bytes'},
+                'decreases': 'len_data - index'}}
+
+
+def add_k12(reg):
+    """What is proved here: _length_encode against RFC 9861 3.3 for every 0 <= x < 2**2040; the object's structural invariant
+    (chunk counters in range: the three `assert`s of update()/read() never trip; hash2 is a fresh TurboSHAKE128 with domain 0x0B
+    that is never squeezed twice without a reset; hash1 keeps absorbing until read()); the call-order automaton (FSM 'XOF');
+    the exact small-step value relations of the single-node case: while the message stays in SHORT_MSG, update() appends to the
+    final node and read() returns TurboSHAKE128(M || C || length_encode(|C|), 0x07) -- i.e. KT128 for |S| <= 8192 -- and later
+    reads continue that stream.
+    # NOT PROVED: K12_XOF.update/read: the tree relation of the multi-chunk case (final node == S_0 || 03 00^7 || CV_1..CV_{n-1} ||
+    #   length_encode(n-1) || FFFF as a function of the whole message): it needs the inductive lemma "the CVs of the complete
+    #   8192-byte chunks of T are a prefix of those of T || s" over a recursive spec function, which the clause language cannot
+    #   state without a quantifier / an assumed fact.  Covered by bounded/hashes.py (cuts at every offset in 8180..8200).
+    # NOT PROVED: bytearray arguments of update(): `memoryview(bytearray)` is outside the PYVC subset."""
+    reg.add(Contract(K12M + '_length_encode', params={'x': 'int'}, requires=['0 <= x', 'x < pow2(2040)'],
+                     ensures={'value': 'result == spec.k12.length_encode(x)', 'size': '1 <= len(result) and len(result) <= 256'},
+                     raises={}, modifies=[], result='bytes', options=opts(int_lemmas=[2040])))
+    T = 'obj:' + TURBO
+    reg.add(ClassContract(K12, fields={'_custom': 'bytes', '_state': 'enum(1, 2, 3, 4)', '_padding': 'int|none', '_hash1': T, '_length1': 'int',
+                                       '_hash2': T + '|none', '_length2': 'int', '_ctr': 'int'},
+                          # (conjunctions are written all((..)): evaluated without forking, which keeps path exploration cheap)
+                          valid=['len(self._custom) >= 1', 'self._hash1._capacity == 32',
+                                 'self._state != 4 ==> not self._hash1._is_squeezing',
+                                 'self._state == 4 ==> all((self._padding in (0x06, 0x07), self._hash1._domain == self._padding))',
+                                 # SHORT_MSG: everything so far is in the final node, and it still fits one chunk together with C
+                                 'self._state == 1 ==> (self._hash2 is None and all((self._length1 == len(%s.g_data), '
+                                 'any((self._length1 == 0, self._length1 + len(self._custom) <= 8192)))))' % H1,
+                                 # LONG_MSG_S0: still filling the first chunk
+                                 'self._state == 2 ==> all((0 <= self._length1, self._length1 < 8192))',
+                                 # LONG_MSG_SX: hash2 holds the first _length2 bytes of chunk number _ctr
+                                 'self._state == 3 ==> (self._hash2 is not None and self._hash2 is not self._hash1 and all((self._hash2._capacity == 32, '
+                                 'self._hash2._domain == 0x0B, not self._hash2._is_squeezing, 0 <= self._length2, self._length2 < 8192, '
+                                 'self._length2 == len(%s.g_data), self._ctr >= 1)))' % H2]))
+    cust = '(b"" if custom is None else custom)'
+    reg.add(Contract(K12 + '.__init__', params={'data': 'bytes|memoryview|none', 'custom': 'bytes|none'}, self_type='new:' + K12,
+                     requires=['custom is None or len(custom) < pow2(2040)'], raises={},
+                     ensures={'custom': 'self._custom == %s + spec.k12.length_encode(len(%s))' % (cust, cust),
+                              'empty': 'data is None ==> (self._state == 1 and %s.g_data == b"")' % H1,
+                              'short': '(data is not None and self._state == 1) ==> %s.g_data == bytes(data)' % H1,
+                              'absorbing': 'self._state != 4', 'valid': 'valid(self)'},
+                     modifies=K12_FIELDS, inline=[K12 + '.update'], opaque=['spec.k12.length_encode'],
+                     options=opts(assume_valid=False, callee_loops={K12 + '.update': K12_LOOP})))
+    preds = {('update', 'read'): 'self._state != 4', ('read',): 'self._state == 4'}
+    forb, post = fsm_clauses('XOF', preds, 'update')
+    reg.add(Contract(K12 + '.update', params={'data': 'bytes|memoryview'}, requires=['valid(self)'],
+                     raises={'TypeError': ('iff', forb)}, unchanged_on_raise=True,
+                     ensures=dict(post, self='result is self', valid='valid(self)',
+                                  # single-node case (KT128 for |S| <= 8192): the final node grows by exactly the data
+                                  short='self._state == 1 ==> %s.g_data == old(%s.g_data) + bytes(data)' % (H1, H1),
+                                  first_chunk='self._state == 2 ==> %s.g_data == old(%s.g_data) + bytes(data)' % (H1, H1),
+                                  monotone='self._state >= old(self._state)'),
+                     returns='self', modifies=K12_UPDATE_MOD, loops=K12_LOOP, options=opts()))
+    forb, post = fsm_clauses('XOF', preds, 'read')
+    assert forb == 'False'
+    reg.add(Contract(K12 + '.read', params={'length': 'nat'}, requires=['valid(self)'],
+                     raises={'OverflowError': ('iff', 'length > ' + MAXSIZE)},
+                     ensures=dict(post, valid='valid(self)',
+                                  # |S| <= 8192: KT128(M, C, L) = TurboSHAKE128(M || C || length_encode(|C|), 0x07, L)
+                                  short='old(self._state) == 1 ==> result == spec.hashprim.keccak_stream(32, 12, 0x07, '
+                                        'old(%s.g_data) + self._custom, 0, length)' % H1,
+                                  # later reads continue the same stream at the ghost output position
+                                  more='old(self._state) == 4 ==> (result == spec.hashprim.keccak_stream(32, 12, %s.g_pad, %s.g_data, old(%s.g_out), length) '
+                                       'and %s.g_data == old(%s.g_data))' % (H1, H1, H1, H1, H1),
+                                  position='old(self._state) == 4 ==> %s.g_out == old(%s.g_out) + length' % (H1, H1),
+                                  # multi-chunk case: final domain byte 0x06, single-node case 0x07
+                                  domain='%s.g_sq and (old(self._state) == 1 ==> %s.g_pad == 0x07) and (old(self._state) in (2, 3) ==> %s.g_pad == 0x06)' % (H1, H1, H1)),
+                     modifies=None, result='bytes', inline=[K12 + '.update'], opaque=['spec.k12.length_encode'],
+                     options=opts(callee_loops={K12 + '.update': K12_LOOP})))
+    reg.add(Contract(K12M + 'new', params={'data': 'bytes|memoryview|none', 'custom': 'bytes|none'},
+                     requires=['custom is None or len(custom) < pow2(2040)'], raises={},
+                     ensures={'custom': 'result._custom == %s + spec.k12.length_encode(len(%s))' % (cust, cust),
+                              'absorbing': 'result._state != 4', 'valid': 'valid(result)'},
+                     modifies=[], result='obj:' + K12, opaque=['spec.k12.length_encode'], options=opts()))
+
+
 def registry():
     reg = hash_registry()
     add_shake(reg)
     add_sha3(reg)
     add_keccak(reg)
     add_turboshake(reg)
+    add_k12(reg)
     return reg
 
 
